@@ -128,7 +128,7 @@ def probe_jobs():
         # D25: hidden by its .cap file, named again by a ./ block
         {"op": "c07_listing", "dir": "/", "kinds": ["umn"], "perms": [[0, 1, 2]],
          "tree": [f("fred"), f(".cap/fred", "Type=X\n"), f(".names", "Path=./fred\nName=Back\n")]},
-        # D26: an HTML file the title handler cannot open
+        # D27: an HTML file the title handler cannot open
         {"op": "c12_faults", "dir": "/", "kinds": ["umn"], "perms": ["natural"], "requests": [],
          "tree": [f("a.txt"), f("b.html", "<html><title>T</title></html>\n")],
          "call_faults": {"b.html": {"call": "open", "from": 1, "errno": "EACCES"}}},
